@@ -21,7 +21,8 @@ EXPLANATION = (
     "table by path-sensitive abstract interpretation; and for every monotonic term tsukamoto(0) is interpreted over "
     "the extended-sign domain (height > 0, slopes non-zero, other parameters finite) and pushed through the "
     "accumulation expression with weight 0: the contribution must be exactly {zero}; with no activations or all "
-    "weights zero the result must be exactly {nan}"
+    "weights zero the result must be exactly {nan}; the same with the term value at 0 being anything (finite, infinite, NaN) on every "
+    "branch of the kind selection (conditions that are not about numbers fork the interpreter)"
 )
 ASSUMPTIONS = [
     "parameter classes from the property's preconditions: height in (0,1], slopes non-zero, other parameters finite",
@@ -307,6 +308,22 @@ def zero_weight(check: Check, facts: dict) -> None:
         if not zname:
             continue
         inc = f["accs"][zname]["inc"]
+        # whatever the term's value at 0 is (a Function term may evaluate to +-inf or NaN there), for every kind of defuzzifier
+        top = Abs({NAN, NINF, NEG, ZERO, POS, PINF})
+
+        def env_any(t: Term, w=w):
+            if t == w:
+                return Abs({ZERO})
+            if t[0] == "call" and t[2] == (w,) and t[1][0] == "call":
+                return top
+            return None
+
+        contrib = Evaluator(p, env_any).ev(inc)
+        ok = contrib == Abs({ZERO})
+        check.require(ok, "A2", f"{dname}.defuzzify/any-term",
+                      f"contribution of a zero-degree activation whose term value is anything (finite, +-inf, NaN) = {show_abs(contrib)}" +
+                      ("" if ok else ": an activation with degree 0 changes the result for some kind of term / defuzzifier type (0 x inf = NaN)"),
+                      loc(f["fn"], f["head"]), {"contribution": show_abs(contrib), "expression": show(inc)[:160]}, exhaustive=True, cases=1)
         for c in mono:
             ts = c.lookup("tsukamoto")
             check.analysed(ts)
